@@ -124,6 +124,9 @@ type internalStruct struct {
 	// map key type
 	MapKeyPointerNum uint32 `json:",omitempty"`
 	MapKeyType       string `json:",omitempty"`
+	// MapKeyInternal: the key type is an interface, the keys of MapValues are serialized
+	// internalStructs (which keep the dynamic type of the key) instead of plain JSON
+	MapKeyInternal bool `json:",omitempty"`
 	// map value type
 	MapValuePointerNum uint32 `json:",omitempty"`
 	MapValueType       string `json:",omitempty"`
@@ -235,6 +238,7 @@ func internalMarshal(v any) (*internalStruct, error) {
 		}
 
 		ret.MapValues = make(map[string]*internalStruct)
+		ret.MapKeyInternal = rkt.Kind() == reflect.Interface && ret.MapKeyPointerNum == 0
 
 		iter := rv.MapRange()
 		for iter.Next() {
@@ -246,9 +250,25 @@ func internalMarshal(v any) (*internalStruct, error) {
 				return nil, err
 			}
 
-			keyStr, err := sonic.MarshalString(k.Interface())
-			if err != nil {
-				return nil, fmt.Errorf("marshaling map key[%v] fail: %v", k.Interface(), err)
+			var keyStr string
+			if ret.MapKeyInternal {
+				// plain JSON would drop the dynamic type of the key (int(1), int64(1), 1.0 -> "1")
+				internalKey, err := internalMarshal(k.Interface())
+				if err != nil {
+					return nil, err
+				}
+				keyStr, err = sonic.MarshalString(internalKey)
+				if err != nil {
+					return nil, fmt.Errorf("marshaling map key[%v] fail: %v", k.Interface(), err)
+				}
+			} else {
+				keyStr, err = sonic.MarshalString(k.Interface())
+				if err != nil {
+					return nil, fmt.Errorf("marshaling map key[%v] fail: %v", k.Interface(), err)
+				}
+			}
+			if _, dup := ret.MapValues[keyStr]; dup {
+				return nil, fmt.Errorf("marshaling map key[%v] fail: its serialized form is not unique", k.Interface())
 			}
 			ret.MapValues[keyStr] = internalValue
 		}
@@ -415,9 +435,27 @@ func internalUnmarshal(v *internalStruct) (any, error) {
 		result, dResult := createValueFromType(resolvePointerNum(v.PointerNum, mapType))
 		for marshaledMapKey, internalValue := range v.MapValues {
 			prkv := reflect.New(rkt)
-			err := sonic.UnmarshalString(marshaledMapKey, prkv.Interface())
-			if err != nil {
-				return nil, fmt.Errorf("unmarshal map key[%v] to type[%s] fail: %v", marshaledMapKey, v.MapKeyType, err)
+			if v.MapKeyInternal {
+				internalKey := &internalStruct{}
+				err := sonic.UnmarshalString(marshaledMapKey, internalKey)
+				if err != nil {
+					return nil, fmt.Errorf("unmarshal map key[%v] to type[%s] fail: %v", marshaledMapKey, v.MapKeyType, err)
+				}
+				key, err := internalUnmarshal(internalKey)
+				if err != nil {
+					return nil, fmt.Errorf("unmarshal map key[%v] to type[%s] fail: %v", marshaledMapKey, v.MapKeyType, err)
+				}
+				if key != nil {
+					if !reflect.TypeOf(key).AssignableTo(rkt) {
+						return nil, fmt.Errorf("unmarshal map key[%v] to type[%s] fail: not assignable", marshaledMapKey, v.MapKeyType)
+					}
+					prkv.Elem().Set(reflect.ValueOf(key))
+				}
+			} else {
+				err := sonic.UnmarshalString(marshaledMapKey, prkv.Interface())
+				if err != nil {
+					return nil, fmt.Errorf("unmarshal map key[%v] to type[%s] fail: %v", marshaledMapKey, v.MapKeyType, err)
+				}
 			}
 
 			value, err := internalUnmarshal(internalValue)
